@@ -14,6 +14,15 @@ MAP = [  # (substring of the commit subject, property)
  ("None return value of complex type", "C02"), ("ModelBase.to_bytes", "C02"),
  ("null member of complex type", "C02"), ("members of a class used more than once", "C03"),
  ("strict_arrays rejected arrays", "C03"), ("SOAP 1.2 fault whose detail dict", "C09"),
+ ("SOAP request with an empty Body", "C10"), ("empty SOAP request or one not in the announced charset", "C10"),
+ ("not a member of an Enum escaped", "C10"), ("most YAML syntax errors escaped", "C10"),
+ ("deeply nested or undecodable JSON", "C10"), ("msgpack documents with trailing data", "C10"),
+ ("range validation of NaN or of a non-numeric", "C10"), ("request without an argument document", "C10"),
+ ("wrapper element carries xsi:nil", "C10"), ("msgpack-rpc document with trailing data", "C10"),
+ ("number where uuid text is expected", "C10"), ("MessagePack method name that is not valid UTF-8", "C10"),
+ ("closed the request context before the response body", "C13"), ("chunked=False) raised TypeError", "C13"),
+ ("empty or immediately failing generator result", "C13"), ("request size limit was only enforced", "C13"),
+ ("WSDL error responses had a str body", "C13"),
  ("xsi:type could substitute a value of any registered class", "C04"),
  ("document nodes of the wrong kind escaped", "C04"), ("MessagePack handed booleans, maps and lists", "C04"),
  ("malformed base64 or hex text raised binascii.Error", "C10"),
